@@ -1145,6 +1145,14 @@ class ReplacingNodeVisitor(BaseNodeVisitor):
         except NotImplementedError:
             return None
         lines_to_add = [line + "\n" for line in parent_lines]
+        first_line = lines[current_statement.lineno - 1].lstrip()
+        if (
+            isinstance(current_statement, ast.If)
+            and re.match(r"elif\b", first_line)
+            and lines_to_add
+        ):
+            # decompile() starts a new "if" statement for the If node of an "elif" clause
+            lines_to_add[0] = lines_to_add[0].replace("if", "elif", 1)
         return Replacement(lines_to_remove, lines_to_add)
 
     def remove_node(
